@@ -12,6 +12,7 @@ package c10i
 //     block and the first of the next, in one, two and three axes.
 
 import (
+	"runtime"
 	"fmt"
 	"math"
 	"sort"
@@ -240,6 +241,13 @@ func oneCanvas(c *core.Ctx, cs Case) {
 	}
 	pos := placement(cs.N)
 	f := boxField(pos, clipped)
+	long := cs.N >= longBase
+	if long {
+		// more storage blocks than workers: the number of OS-level processors is set to the worker
+		// count as well (a CPU-limited machine), whichever of the two the pool is sized from
+		f, pos = longField(cs.N-longBase, clipped)
+		defer runtime.GOMAXPROCS(runtime.GOMAXPROCS(workers))
+	}
 	seq := marching.NewMarchingCanvas(1)
 	seq.AddField(f)
 	var wantKey string
@@ -268,6 +276,9 @@ func oneCanvas(c *core.Ctx, cs Case) {
 	outcome := "ok"
 	site := "marching.MarchingCanvas." + strings.ReplaceAll(strings.TrimPrefix(cs.Entry, "canvas/"), "+", "/")
 	class := "canvas-placement/" + boundaryClass(pos)
+	if long {
+		class = "canvas-many-blocks/" + longBoxes[cs.N-longBase].name
+	}
 	if clipped {
 		class += "/field-clipped-by-its-domain"
 	}
@@ -286,6 +297,39 @@ func oneCanvas(c *core.Ctx, cs Case) {
 		fail(fmt.Sprintf("parallel pipeline yields %d triangles, AddField + March %d (or differing vertices)", gotN, wantN))
 	}
 	raceAndCount(c, cs, outcome, wantN > 0 && workers > 1)
+}
+
+// ---- boxes that span many storage blocks (block edge 6) ------------------------------------------
+
+const longBase = 1000
+
+var longBoxes = []struct {
+	name   string
+	lo, hi [3]float64
+}{
+	{"3-blocks-in-x", [3]float64{2.3, 2.3, 2.3}, [3]float64{15.7, 4.1, 3.9}},
+	{"5-blocks-in-x", [3]float64{2.3, 2.3, 2.3}, [3]float64{27.7, 4.1, 3.9}},
+	{"7-blocks-in-x", [3]float64{2.3, 2.3, 2.3}, [3]float64{39.7, 4.1, 3.9}},
+	{"5-blocks-in-x-across-zero", [3]float64{-8.7, 2.3, 2.3}, [3]float64{15.7, 4.1, 3.9}},
+	{"3x2-blocks", [3]float64{2.3, 2.3, 2.3}, [3]float64{15.7, 9.1, 3.9}},
+	{"3x3-blocks", [3]float64{2.3, 2.3, 2.3}, [3]float64{15.7, 15.1, 3.9}},
+	{"3x3x2-blocks", [3]float64{2.3, 2.3, 2.3}, [3]float64{15.7, 15.1, 8.9}},
+	{"3x3x3-blocks", [3]float64{2.3, 2.3, 2.3}, [3]float64{15.7, 15.1, 14.9}},
+	{"5-blocks-in-z", [3]float64{2.3, 2.3, 2.3}, [3]float64{4.1, 3.9, 27.7}},
+}
+
+func longField(k int, clipped bool) (marching.Field, vector3.Float64) {
+	b := longBoxes[k]
+	lo, hi := vector3.New(b.lo[0], b.lo[1], b.lo[2]), vector3.New(b.hi[0], b.hi[1], b.hi[2])
+	pos, size := lo.Add(hi).Scale(0.5), hi.Sub(lo)
+	dom := size.Add(vector3.Fill(0.8))
+	if clipped {
+		dom = size.Sub(vector3.Fill(0.6))
+	}
+	return marching.Field{
+		Domain:          geometry.NewAABB(pos, dom),
+		Float1Functions: map[string]sample.Vec3ToFloat{modeling.PositionAttribute: sdf.Box(pos, size)},
+	}, pos
 }
 
 // boundaryClass: in how many axes the box (half extents 1.3, 1.1, 0.9) straddles the plane 6 between
